@@ -62,9 +62,9 @@ RULE = (
     "0-2 shared directories with files (scanned before login). Login answered accept / reject / undecodable / other "
     "message / EOF / RST / silence; an accepted login is followed by the 9-frame burst a server sends (room list, parent "
     "speed values, the deprecated distributed parameters, wishlist interval, privileged users, excluded phrases). Point: "
-    "loss (server FIN, RST, silent loss ending in ETIMEDOUT after 900 s, read timeout of an unanswered login, requested "
+    "loss (server FIN, RST, silent loss ending in ETIMEDOUT after 900 s, an unanswered login, requested "
     "disconnect_server()) before login, at login, right after frame k of the burst in the same instant (k = 0..9 "
-    "exhaustive), idle, or with pending work (download whose peer connect hangs / is slow, search with timeout, "
+    "exhaustive), idle, idle with the server unreachable for the next 12 s (reconnect attempts fail), or with pending work (download whose peer connect hangs / is slow, search with timeout, "
     "potential-parent connect hanging / slow, connect-back hanging, tracking retry scheduled); or stop() before login, "
     "while login() blocks, after a failed login, after frame k of a burst sent at 50 ms spacing (k = 0..9 exhaustive), "
     "right after login() returned, idle, with each kind of pending work, while the reconnect wait runs, after a requested "
@@ -107,8 +107,12 @@ ASSUMPTIONS = [
     "UPnP disabled; run_until_stopped not covered; one client per world; the scripted server answers AddUser with 'exists' "
     "for friends and peers, 'does not exist' for the user of the tracking-retry case.",
     "Observation outside the statement: a server that goes silent on a live TCP connection is never noticed by the client "
-    "(every ping sent shifts the read deadline by another 600 s), so the TIMEOUT close reason is produced by an "
-    "unanswered login and by the kernel giving up (ETIMEDOUT).",
+    "(every ping sent shifts the read deadline by another 600 s); login() against a server that never answers is still "
+    "blocked after 700 virtual seconds for the same reason (outcome 'silent->blocked', counted as loss_unnoticed, not "
+    "judged). The TIMEOUT close reason is therefore produced by the kernel giving up (ETIMEDOUT) only.",
+    "TCP delivers in order: in the cases that inject a server FIN, a reset provoked by the client's own later write takes "
+    "0.5 s (SimNet.rst_latency) so that it cannot overtake the FIN and the frames sent before it; with the default 2 ms "
+    "the library sees READ_ERROR instead of EOF and reconnects, which is an artefact of the simulated net.",
 ]
 MIN_OBS = {
     'quick': {'logins_judged': 150, 'required_frames_checked': 1800, 'losses_judged': 90, 'stops_judged': 250,
@@ -135,7 +139,14 @@ WHAT_FAILS = {
     'stop:open-endpoint': 'a connection of the client is open after stop() returned',
     'stop:listener-left': 'a listening port of the client is open after stop() returned',
     'stop:pending-task:': 'a task started by the library is pending after stop() returned',
-    'stop:connect-after-stop': 'the client starts a connection attempt after stop() returned',
+    'stop:pending-task:potential-parent': 'DistributedNetwork is not one of client.services: its stop() is never called, '
+                                          'potential-parent connection tasks survive stop()',
+    'stop:pending-task:search-timer': 'the timeout timers of search requests are not cancelled by stop()',
+    'stop:pending-task:watchdog': 'the reconnect watchdog survives a stop() issued while the server connection is CLOSED',
+    'stop:connect-after-stop:server': 'the client connects to the server (and logs in) again after stop() returned: stop() '
+                                      'issued while the server connection is already CLOSED (reconnect wait running) does '
+                                      'not stop the reconnect watchdog',
+    'stop:connect-after-stop:peer': 'the client starts a connection attempt to a peer after stop() returned',
     'stop:connection-established-after-stop': 'a connection attempt begun before stop() completes after it: the connection is open',
     'stop:frame-after-stop': 'the client writes to a server connection after stop() returned',
 }
@@ -174,6 +185,7 @@ LOSS_REASONS = {
     'at-login': ('eof', 'rst', 'silent'),
     'burst': ('eof', 'rst'),
     'idle': ('eof', 'rst', 'etimedout', 'requested'),
+    'idle-down': ('rst', 'etimedout'),
     'pending': ('eof', 'rst', 'etimedout', 'requested'),
 }
 STOP_POINTS = ('before-login', 'during-login', 'failed-login:reject', 'failed-login:garbage', 'failed-login:other',
@@ -225,6 +237,8 @@ def cases(tier: str, seed: int) -> list[dict]:
         for k in range(BURST_LEN + 1):
             for reason in LOSS_REASONS['burst']:
                 add('loss', 'burst', reason, k=k, auto=auto)
+    for reason in LOSS_REASONS['idle-down']:
+        add('loss', 'idle-down', reason, auto=True)
     n = 0
     for work in PENDING_KINDS:
         for reason in LOSS_REASONS['pending']:
@@ -246,10 +260,11 @@ def cases(tier: str, seed: int) -> list[dict]:
                 work=rng.choice(PENDING_KINDS) if point == 'pending' else None,
                 **({'auto': True} if point in ('reconnect-wait', 'relogged') else {}))
         else:
-            point = rng.choice(('pre-login', 'at-login', 'burst', 'burst', 'idle', 'pending', 'pending'))
+            point = rng.choice(('pre-login', 'at-login', 'burst', 'burst', 'idle', 'idle-down', 'pending', 'pending'))
             add('loss', point, rng.choice(LOSS_REASONS[point]),
                 k=rng.randint(0, BURST_LEN) if point == 'burst' else None,
-                work=rng.choice(PENDING_KINDS) if point == 'pending' else None)
+                work=rng.choice(PENDING_KINDS) if point == 'pending' else None,
+                **({'auto': True} if point == 'idle-down' else {}))
     return out
 
 
@@ -701,7 +716,7 @@ def run_case(params: dict) -> dict:
                 raise ValueError(why)
 
         # -- the loss monitor -------------------------------------------------------------------------------
-        async def judge_loss(t_inject: float, why: str, n_init0: int, n_destr0: int, label: str):
+        async def judge_loss(t_inject: float, why: str, n_init0: int, n_destr0: int, label: str, down: bool = False):
             closed = await wait_closed(t_inject, CLOSE_WAIT)
             if closed is None:
                 add('loss_unnoticed')
@@ -762,10 +777,25 @@ def run_case(params: dict) -> dict:
             add('reconnects_judged')
             cover.append(('reconnect_cells', f"{why}:auto-{'on' if cfg['auto'] else 'off'}"))
             if expect:
-                left = t_closed + RECONNECT_BOUND - w.now
+                t_ref = t_closed
+                if down:
+                    # the server is unreachable for a while: the attempts fail (CLOSED again and again); the lost
+                    # session must not be destroyed a second time
+                    await settle(12.0)
+                    failed = attempts_after()
+                    n_again = n_events(SessionDestroyedEvent) - n_destr0
+                    add('failed_reconnect_attempts', len(failed))
+                    if n_again != n_destr:
+                        violation(f'loss:session-destroyed-count:{n_again}:{why}', **wit, session_destroyed_events=n_again,
+                                  after_failed_reconnect_attempts=[e['t'] for e in failed],
+                                  closed_events=st['closed'][:8])
+                    await server.start()
+                    t_ref = now()
+                left = t_ref + RECONNECT_BOUND - w.now
                 if left > 0:
                     await settle(left)
-                att, logs = attempts_after(), logins_after()
+                att = [e for e in attempts_after() if e['t'] >= t_ref]
+                logs = [x for x in logins_after() if x[0] >= t_ref]
                 note('reconnect', attempts=[e['t'] for e in att], logins=logs)
                 if not att or not logs:
                     violation(f'loss:no-reconnect:{why}', **wit, bound_s=RECONNECT_BOUND,
@@ -967,7 +997,6 @@ def run_case(params: dict) -> dict:
                 if got is None:
                     raise RuntimeError(f'login failed: {info["login_outcome"]}')
                 await judge_login_of(got[0], got[1], 'first-login')
-                n_init0, n_destr0 = n_events(SessionInitializedEvent), n_events(SessionDestroyedEvent)
                 if point == 'pending':
                     await start_work(work)
                 elif point in ('reconnect-wait', 'relogged'):
@@ -996,7 +1025,6 @@ def run_case(params: dict) -> dict:
             return
 
         # -- kind == 'loss' ---------------------------------------------------------------------------------------
-        n_init0, n_destr0 = 0, 0
         if point == 'pre-login':
             t_inj = now()
             if reason == 'requested':
@@ -1034,7 +1062,9 @@ def run_case(params: dict) -> dict:
                 await h.call(client.network.disconnect_server())
             else:
                 inject(reason)
-            await judge_loss(t_inj, reason, 0, n_destr0, label)
+            if point == 'idle-down':
+                server.stop_listening()
+            await judge_loss(t_inj, reason, 0, n_destr0, label, down=point == 'idle-down')
         await stop_and_judge('final:' + label)
 
     tag = f"{params.get('seed', 0)}:{params.get('idx', 0)}"
